@@ -39,6 +39,13 @@ def make(rng, index, n_entries=None, volumes=None, names=None, dates=None,
                             'volume': v, 'home': False, 'kind': 'alt'})
     for t in trashes:
         L.add(world.ensure_trash_dirs(t['rel']))
+        # what other implementations keep next to files/ and info/
+        if rng.random() < 0.3:
+            L.add({'p': t['rel'] + '/directorysizes', 't': 'f',
+                   'c': '4096 1700000000 some%20dir\n'})
+        if rng.random() < 0.1:
+            L.add({'p': t['rel'] + '/' + rng.choice(['metadata', '.DS_Store', 'expunged']),
+                   't': rng.choice(['f', 'd'])})
     if n_entries is None:
         n_entries = rng.randint(1, 8)
     entries = []
@@ -55,7 +62,7 @@ def make(rng, index, n_entries=None, volumes=None, names=None, dates=None,
         loc = (locdir + '/' + nm) if locdir else nm
         date = dates[i % len(dates)] if dates else trashgen.rand_date(rng)
         kind = rng.choice(kinds or trashgen.PAYLOAD_KINDS)
-        tname = 'n%d' % i if rng.random() < 0.5 else \
+        tname = 'n%d' % i if rng.random() < 0.4 else \
             (nm if len(nm.encode('utf-8', 'surrogateescape')) < 200 and
              '/' not in nm else 'n%d' % i)
         if any(e['trash'] == t['rel'] and e['name'] == tname for e in entries):
